@@ -102,3 +102,16 @@ package expand
 //@ stable l.pairs[*]
 //@ note stable: the callback cannot reach the unexported backing array of l.pairs (no alias is ever handed out)
 //@ loop 1 invariant [rep-kept] all(j, 0, len(l.pairs), validPair(l.pairs[j]))
+
+// ---- C28: the count of consumed arguments returned by Format is within the argument list ----
+//@ func formatInto
+//@ props C28
+//@ nosafety
+//@ returns (consumed, err)
+//@ ensures [consumed-in-range] 0 <= consumed && consumed <= len(args)
+//@ loop 1 invariant [args-shrink] len(args) <= initialArgs && initialArgs == len(old(args))
+
+//@ func Format
+//@ props C28
+//@ returns (s, consumed, err)
+//@ ensures [consumed-in-range] 0 <= consumed && consumed <= len(args)
